@@ -42,6 +42,35 @@ func C16(c *core.Ctx) {
 		}
 	}
 	c.Floor("R1", len(parser), 3, "functions of flowdesc.go")
+	// ... and every other own function that takes the flow-description string apart (reads
+	// SDFFilterFields.FlowDescription and indexes / slices): "no fault on any string" holds for them too
+	inParser := map[*ssa.Function]bool{}
+	for _, fn := range parser {
+		inParser[fn] = true
+	}
+	for _, fn := range p.OwnFuncs() {
+		if inParser[fn] {
+			continue
+		}
+		reads := false
+		for _, a := range core.FieldAccesses(fn) {
+			if a.Field.Name() == "FlowDescription" && !a.Write {
+				reads = true
+			}
+		}
+		if !reads {
+			continue
+		}
+		k := 0
+		for _, site := range p.IndexSites(fn, bd.bce) {
+			k++
+			ok, how := site.Proven, "proven in bounds by the compiler's prove pass"
+			if !ok {
+				ok, how = bd.discharge(c, site)
+			}
+			c.Check("R1", fmt.Sprintf("index:%s#%d", core.FnName(fn), k), site.Lbrack, ok, how+" (function reads the SDF filter's flow description)")
+		}
+	}
 	nSites := 0
 	for _, fn := range parser {
 		k := 0
